@@ -47,11 +47,11 @@ let xfer proto script =
         wire.(side) <- wire.(side) @ [5 + 17]
       | Err -> Buffer.add_string out "eERR"
       | Fault -> Buffer.add_string out "eFAULT"; dead := true
-    end else begin
+    end else begin            (* 'r' and 'n' (non-blocking socket, poll loop): the same receive *)
       match drecv !d client (nat_of_int n) with
       | Ok (d', data) -> d := d';
-        Buffer.add_string out (Printf.sprintf "r%d:%08x" (List.length data) (fnv data))
-      | Err -> Buffer.add_string out "rERR"
+        Buffer.add_string out (Printf.sprintf "%c%d:%08x" t.[0] (List.length data) (fnv data))
+      | Err -> Buffer.add_string out (Printf.sprintf "%cERR" t.[0])
       | Fault -> Buffer.add_string out "rFAULT"
     end;
     let c = !d.c2s and s = !d.s2c in
@@ -64,7 +64,68 @@ let xfer proto script =
   else Printf.sprintf "xfer=%s wire=%s/%s nrec=%d:%d/%d:%d" (Buffer.contents out) (w 0) (w 1)
       (int_of_nat c.sseq) (int_of_nat c.rseq) (int_of_nat s.sseq) (int_of_nat s.rseq)
 
+(* ---- authentication signatures seen on the wire, with the content the model says they sign ---- *)
+let sub l i n = List.filteri (fun j _ -> j >= i && j < i + n) l
+let drop l i = List.filteri (fun j _ -> j >= i) l
+let u16at l i = int_of_n (List.nth l i) * 256 + int_of_n (List.nth l (i + 1))
+let u24at l i = int_of_n (List.nth l i) * 65536 + u16at l (i + 1)
+let mtype m = match m with x :: _ -> int_of_n x | [] -> -1
+let idhex_default = "31323334353637383132333435363738"                 (* SM2_DEFAULT_ID "1234567812345678" *)
+let idhex_tls13 = "544c5376312e332b474d2b4369706865722b5375697465"     (* "TLSv1.3+GM+Cipher+Suite" *)
+(* certificates of a TLCP / TLS 1.2 Certificate message: type(1) len(3) listlen(3) { len(3) cert } *)
+let certs12 m =
+  let rec go l acc = if List.length l < 3 then List.rev acc else
+    let n = u24at l 0 in go (drop l (3 + n)) (sub l 3 n :: acc) in
+  go (drop m 7) []
+let entry name id cert content sg = String.concat "|" [name; id; hx cert; hx content; hx sg]
+let sigs12 proto plain =
+  let msgs = List.map (fun r -> drop r 5) plain in
+  let rnd m = sub m 6 32 in
+  let cr = rnd (List.nth msgs 0) and sr = rnd (List.nth msgs 1) in
+  let out = ref [] and seen = ref [] and scerts = ref [] and ccerts = ref [] and ncert = ref 0 in
+  List.iter (fun m ->
+    (match mtype m with
+     | 11 -> incr ncert; if !ncert = 1 then scerts := certs12 m else ccerts := certs12 m
+     | 12 ->
+       if proto = "tls12" then begin
+         let params = sub m 4 69 in
+         let sl = u16at m (4 + 69 + 2) in
+         out := entry "ServerKeyExchange" idhex_default (List.nth !scerts 0) (ske12_signed cr sr params) (sub m (4 + 69 + 4) sl) :: !out
+       end else begin
+         let sl = u16at m 4 in
+         out := entry "ServerKeyExchange" idhex_default (List.nth !scerts 0) (ske_tlcp_signed cr sr (List.nth !scerts 1)) (sub m 6 sl) :: !out
+       end
+     | 15 ->
+       let sl = u16at m 4 in
+       let tr = List.concat (List.rev !seen) in
+       let content = if proto = "tls12" then cv12_signed tr else cv_tlcp_signed tr in
+       out := entry "CertificateVerify" idhex_default (List.nth !ccerts 0) content (sub m 6 sl) :: !out
+     | _ -> ());
+    seen := m :: !seen) msgs;
+  List.rev !out
+(* TLS 1.3 Certificate: type(1) len(3) ctxlen(1) ctx listlen(3) { len(3) cert extlen(2) ext } *)
+let leaf13 m = let c = int_of_n (List.nth m 4) in let o = 5 + c + 3 in sub m (o + 3) (u24at m o)
+let sigs13 ch sh smsgs cmsgs =
+  let t0 = drop ch 5 @ drop sh 5 in
+  let flight server before msgs =
+    let seen = ref [] and cert = ref [] and out = ref [] in
+    List.iter (fun m ->
+      (match mtype m with
+       | 11 -> cert := leaf13 m
+       | 15 ->
+         let sl = u16at m 6 in
+         let tr = before @ List.concat (List.rev !seen) in
+         out := entry (if server then "server CertificateVerify" else "client CertificateVerify") idhex_tls13 !cert
+                  (cv13_content server tr) (sub m 8 sl) :: !out
+       | _ -> ());
+      seen := m :: !seen) msgs; List.rev !out in
+  flight true t0 smsgs @ flight false (t0 @ List.concat smsgs) cmsgs
+
 let handle ws = match ws with
+  | ["sigs12"; proto; plain] -> (match sigs12 proto (recs plain) with [] -> "-" | l -> String.concat "," l)
+  | ["sigs13"; ecdh; ch; sh; srv; cli] ->
+    let (sm, cm) = observe13_msgs_sm4 (b ecdh) (b ch) (b sh) (recs srv) (recs cli) in
+    (match sigs13 (b ch) (b sh) sm cm with [] -> "-" | l -> String.concat "," l)
   | ["obs12"; pms; plain; cfin; sfin] ->
     let (((ms, kb), cok), sok) = observe12_sm4 (b pms) (recs plain) (b cfin) (b sfin) in
     let k i l = hx (sm4_rk_bytes (List.filteri (fun j _ -> j >= i && j < i + l) kb)) in
